@@ -2,6 +2,7 @@ import Utv.Model.C13
 import Utv.Lemmas.C13Json
 import Utv.Lemmas.C13Wf
 import Utv.Lemmas.C13Val
+import Utv.Lemmas.C13Alias
 /-!
 C13 — the generated JSON Schema is valid and describes what the parser does.
 
@@ -213,6 +214,90 @@ theorem C13_additional_policy_determined (cfg : Cfg) (a : Ty) (u u' : Spec.Unkno
 /-- the parser's treatment of unknown keys is the documented one -/
 theorem C13_unknown_keys_eq_spec (o : Opts) : parserUnknown o = Spec.unknownKeys o := by
   cases h : o.addition <;> simp [parserUnknown, Spec.unknownKeys, h]
+
+/-! ## aliases: every accepted name is listed, and only those -/
+
+/-- the `x-aliases` a property schema carries -/
+def aliasesOf (p : Json) : List String :=
+  match p with
+  | .obj m => (match lookup "x-aliases" m with
+    | some (.arr xs) => xs.filterMap strOf
+    | _ => [])
+  | _ => []
+
+/-- every name the input document lists: the property keys and their `x-aliases` -/
+def listedNames (doc : Json) : List String :=
+  match doc with
+  | .obj kvs => (match lookup "properties" kvs with
+    | some (.obj ps) => ps.flatMap fun p => p.1 :: aliasesOf p.2
+    | _ => [])
+  | _ => []
+
+theorem aliasesOf_property (cfg : Cfg) (m : FieldMeta) (ty : Ty) (hw : wfTy ty = true) :
+    aliasesOf (.obj (gen cfg ty ++ fieldExtras m)) = sortStrings m.aliases := by
+  unfold aliasesOf
+  simp only [lookup_append, lookup_gen_aliases cfg ty hw, lookup_fieldExtras_aliases]
+  by_cases h : m.aliases.isEmpty = true
+  · have : m.aliases = [] := by simpa using h
+    simp [this, sortStrings]
+  · rw [if_neg h]
+    simp only [strArr]
+    exact filterMap_strOf_strs _
+
+theorem listed_genFields (cfg : Cfg) (o : Opts) (fs : List Fld) (hw : wfFields fs = true) (k : String) :
+    k ∈ (genFields cfg o fs).flatMap (fun p => p.1 :: aliasesOf p.2) ↔
+      ∃ f ∈ fs, fieldVisible cfg o f.meta = true ∧ k ∈ f.meta.name :: f.meta.aliases := by
+  induction fs with
+  | nil => rw [genFields.eq_def]; simp
+  | cons f rest ih =>
+    obtain ⟨m, ty⟩ := f
+    rw [wfFields.eq_def] at hw
+    simp only [Bool.and_eq_true] at hw
+    have ih' := ih hw.2
+    rw [genFields.eq_def]
+    by_cases hv : fieldVisible cfg o m = true
+    · simp only [hv, if_true, List.flatMap_cons, List.mem_append, aliasesOf_property cfg m ty hw.1.2]
+      constructor
+      · rintro (h | h)
+        · refine ⟨.mk m ty, List.mem_cons_self .., hv, ?_⟩
+          rcases List.mem_cons.mp h with h | h
+          · exact List.mem_cons.mpr (Or.inl h)
+          · exact List.mem_cons.mpr (Or.inr (mem_sortStrings h))
+        · obtain ⟨f, hf, hp⟩ := ih'.mp h
+          exact ⟨f, List.mem_cons_of_mem _ hf, hp⟩
+      · rintro ⟨f, hf, hvf, hk⟩
+        rcases List.mem_cons.mp hf with rfl | hf
+        · left
+          rcases List.mem_cons.mp hk with h | h
+          · exact List.mem_cons.mpr (Or.inl h)
+          · exact List.mem_cons.mpr (Or.inr ((List.mergeSort_perm _ _).mem_iff.mpr h))
+        · right; exact ih'.mpr ⟨f, hf, hvf, hk⟩
+    · simp only [hv]
+      constructor
+      · intro h
+        obtain ⟨f, hf, hp⟩ := ih'.mp h
+        exact ⟨f, List.mem_cons_of_mem _ hf, hp⟩
+      · rintro ⟨f, hf, hvf, hk⟩
+        rcases List.mem_cons.mp hf with rfl | hf
+        · exact absurd hvf hv
+        · exact ih'.mpr ⟨f, hf, hvf, hk⟩
+
+/-- the names the input document lists (property keys and their `x-aliases`) are exactly the names the parser
+accepts as input in the class's mode: the name and every alias of every field that takes input -/
+theorem C13_listed_names_iff_accepted (gm : Option Char) (c : ClassMeta) (fs : List Fld) (a : Ty)
+    (hw : wfFields fs = true) (k : String) :
+    k ∈ listedNames (generate ⟨false, gm⟩ (.data c fs a)) ↔
+      ∃ f ∈ fs, isNoInput f.meta c.opts = false ∧ k ∈ f.meta.name :: f.meta.aliases := by
+  simp only [listedNames, generate, lookup_properties_data, listed_genFields _ _ fs hw]
+  constructor
+  · rintro ⟨f, hf, hv, hk⟩
+    refine ⟨f, hf, ?_, hk⟩
+    rw [C13_runtime_noinput_eq_static]
+    simpa [fieldVisible, effOpts] using hv
+  · rintro ⟨f, hf, hv, hk⟩
+    refine ⟨f, hf, ?_, hk⟩
+    rw [C13_runtime_noinput_eq_static] at hv
+    simpa [fieldVisible, effOpts] using hv
 
 /-! ## the generator's `mode` argument (known finding `generator-mode-ignored`)
 
